@@ -96,6 +96,9 @@ def sites_of(f, facts):
     out = []
     tb = TermBuilder(f, facts)
     for b, t in f.terms():
+        if "{closure#" in (f.blocks[b].get("inl_from") or ""):
+            # spliced copy of a closure body: the closure is censused as a function of its own
+            continue
         if t["k"] == "assert":
             kind = t.get("kind", "")
             if kind == "Overflow(Add)":
@@ -195,6 +198,38 @@ def dominating_guards(f, b, tb):
     return res
 
 
+def closure_context(facts, f):
+    """(parent fn, block that builds the closure, captured operand terms in the parent's vocabulary) for a closure that
+    does not write to what it captured: a guard that dominates its creation also holds whenever it runs (captures by
+    shared reference or by value cannot change while the closure is alive)."""
+    if f.kind != "Closure" or facts is None:
+        return None
+    ppath = f.path.rsplit("::{closure#", 1)[0]
+    cands = [facts.fns.get(c) for c in (getattr(facts, "inlined", {}) or {}).get(ppath, [])] + [facts.fns.get(ppath)]
+    for b in f.blocks:
+        for s in b["stmts"]:
+            if s["k"] == "assign" and s["dst"]["proj"] and s["dst"]["l"] == 1:
+                return None        # stores through the environment
+    for par in cands:
+        if par is None or not par.has_body():
+            continue
+        for bi, b in enumerate(par.blocks):
+            for s in b["stmts"]:
+                if s["k"] == "assign" and s["rv"]["k"] == "agg" and s["rv"].get("closure") == f.path:
+                    ptb = TermBuilder(par, facts)
+                    return par, bi, tuple(ptb.operand(o) for o in s["rv"]["ops"]), ptb
+    return None
+
+
+def all_guards(site, tb):
+    gs = dominating_guards(site.fn, site.bb, tb)
+    outer = getattr(tb, "outer", None)
+    if outer:
+        par, bi, _ops, ptb = outer
+        gs = gs + dominating_guards(par, bi, ptb)
+    return gs
+
+
 def strip_not(t):
     n = 0
     while isinstance(t, tuple) and t[0] == "un" and t[1] == "Not":
@@ -225,7 +260,7 @@ def try_discharge(site, tb):
             if (want is None and v in ("Some", "Ok")) or want == v:
                 return "Q7: receiver is a just-built %s(..)" % v
         # Q1: dominated by is_some()/is_ok() true edge or a match arm on the same place
-        for (op, vals, d, t) in dominating_guards(f, site.bb, tb):
+        for (op, vals, d, t) in all_guards(site, tb):
             base, nots = strip_not(op)
             if isinstance(base, tuple) and base[0] == "call" and base[2] and base[2][0] == r:
                 m = base[1].rsplit("::", 1)[-1]
@@ -240,7 +275,7 @@ def try_discharge(site, tb):
                     return "Q1: inside the Ok arm of a match on the same value"
         # Q8: map.get(k).unwrap() dominated by contains_key(k) on the same map and key
         if isinstance(r, tuple) and r[0] == "call" and r[1].endswith("::get") and len(r[2]) > 1:
-            for (op, vals, d, t) in dominating_guards(f, site.bb, tb):
+            for (op, vals, d, t) in all_guards(site, tb):
                 base, nots = strip_not(op)
                 if isinstance(base, tuple) and base[0] == "call" and base[1].endswith("::contains_key") \
                         and base[2][:2] == r[2][:2] and edge_true(vals, nots):
@@ -249,7 +284,7 @@ def try_discharge(site, tb):
         t = site.detail
         idx = tb.operand(t["index"])
         ln = tb.operand(t["len"])
-        for (op, vals, d, sw) in dominating_guards(f, site.bb, tb):
+        for (op, vals, d, sw) in all_guards(site, tb):
             base, nots = strip_not(op)
             # index < len on the same terms
             if isinstance(base, tuple) and base[0] == "bin" and base[1] in ("Lt", "Gt", "Le", "Ge", "Ne", "Eq"):
@@ -272,7 +307,7 @@ def try_discharge(site, tb):
         t = site.detail
         l = tb.operand(t["l"])
         r = tb.operand(t["r"])
-        for (op, vals, d, sw) in dominating_guards(f, site.bb, tb):
+        for (op, vals, d, sw) in all_guards(site, tb):
             base, nots = strip_not(op)
             if isinstance(base, tuple) and base[0] == "bin":
                 truth = edge_true(vals, nots)
@@ -356,7 +391,23 @@ def run_census(facts, res, rid, crates, roots, triage, class_rules, prop, findin
                 continue
             if tb is None:
                 tb = TermBuilder(f, facts)
+                cc = closure_context(facts, f)
+                tb2 = None
+                if cc:
+                    # second attempt in the vocabulary of the function that builds the closure, with its guards
+                    tb2 = TermBuilder(f, facts, upvars=cc[2])
+                    tb2.outer = cc
             q = try_discharge(s, tb)
+            if not q and tb2 is not None:
+                recv0 = s.recv
+                if s.recv is not None and s.detail is not None and s.detail.get("k") == "call":
+                    _k, argi = classify_call(callee(s.detail))
+                    if argi is not None and s.detail["args"]:
+                        s.recv = tb2.operand(s.detail["args"][argi])
+                q = try_discharge(s, tb2)
+                s.recv = recv0
+                if q:
+                    q += " (guard in the function that builds the closure)"
             if q:
                 stats["mechanical"] += 1
                 s.discharge = q
